@@ -51,6 +51,7 @@ def main():
         mod = importlib.import_module("harness.props.%s" % a.prop.lower())
         ctx = core.Ctx(a.prop, a.tier, seed)
         ctx.replay = a.replay
+        core.stall_guard(a.prop)
         if a.replay:
             rc = replay_file(ctx, mod, a.replay)
         else:
